@@ -203,3 +203,42 @@ Print Assumptions C14_full_stack_pending_registers_with_both_leaves.
 Print Assumptions C14_full_stack_limit_change_and_close_wake.
 Print Assumptions C14_full_stack_vector_update_and_drop_wake.
 Print Assumptions C14_full_stack_poll_always_answers.
+
+(* the same on the batched subscriber stream (FullStackB.v) *)
+From EB Require Import FullStackB FullStackBFacts.
+
+Theorem C14_full_stack_batched_pending_registers_and_terminates :
+  forall (A St : Type) (veq heq : nat -> nat -> bool) (vdefault : nat)
+         (on_diff : St -> diff A -> outcome (St * list (diff A)))
+         (on_param : St -> nat -> St * option (list (diff A)))
+         (init : nat -> list A -> St * list A)
+         (R : St -> list A -> list A -> Prop) (param : St -> nat),
+    (forall n l, R (fst (init n l)) l (snd (init n l)) /\ param (fst (init n l)) = n) ->
+    step_ok on_diff R ->
+    (forall st d st' outs, on_diff st d = Ok (st', outs) -> param st' = param st) ->
+    param_ok on_param R ->
+    (forall st n, param (fst (on_param st n)) = n) ->
+    (forall st n, snd (on_param st n) <> Some []) ->
+    forall capacity okd limit0 evs s,
+      frun_b veq heq vdefault on_diff on_param init (fsb_init capacity okd limit0) evs = ROk s ->
+      (exists fuel, forall fuel', fuel <= fuel' -> fstep_b veq heq vdefault on_diff on_param init s (FPoll fuel') <> RFuel) /\
+      forall fuel s',
+        fstep_b veq heq vdefault on_diff on_param init s (FPoll fuel) = ROk (s', FBAnswer Pending) ->
+        exists a, fb_ad s' = Some a /\
+          (exists sb, nth_error (OVec.subs (g_o (fb_g s'))) (b_k a) = Some (Some sb) /\ sb_waiting sb = true) /\
+          (ver (fb_lim s') <> 0 -> In (b_j a) (wakers (fb_lim s'))) /\
+          (forall x o' out w, Obs.step veq heq vdefault (fb_lim s') x = Ok (o', out, w) ->
+                              ver o' <> ver (fb_lim s') -> In (b_j a) w).
+Proof.
+  intros A St veq heq vdefault on_diff on_param init R param H1 H2 H3 H4 H5 H6 capacity okd limit0 evs s E.
+  split.
+  - exact (fullb_poll_terminates veq heq vdefault on_diff on_param init R param H1 H2 H3 H4 H5 H6 capacity okd limit0 evs s E).
+  - intros fuel s' H.
+    destruct (fullb_pending_registers veq heq vdefault on_diff on_param init R param H1 H2 H3 H4 H5 H6
+                capacity okd limit0 evs s fuel s' E H) as (a & Ea & Hw & Hr).
+    exists a. split; [exact Ea|]. split; [exact Hw|]. split; [exact Hr|].
+    intros x o' out w Hs Hv.
+    exact (fullb_limit_change_wakes veq heq vdefault on_diff on_param init R param H1 H2 H3 H4 H5 H6
+             capacity okd limit0 evs s fuel s' a x o' out w E H Ea Hs Hv).
+Qed.
+Print Assumptions C14_full_stack_batched_pending_registers_and_terminates.
